@@ -94,7 +94,7 @@ inline current_call &cur()
 }
 inline long &watchdog_seconds()
 {
-  static long s = 20;
+  static long s = 60;
   return s;
 }
 // called by the sanitizer runtime before it kills the process, and by the signal handlers
@@ -565,7 +565,11 @@ template <bin F, typename T> void binary(config const &cfg, vj::Rng &rng)
     binary_rows<F, T>(lo<T>(), hi<T>(), lo<T>(), hi<T>());
   else if constexpr (sizeof(T) == 2)
   {
-    // 16-bit: boundary lattice x boundary lattice (quick); every left operand x (lattice + 160 random) (thorough)
+    // 16-bit (4.3e9 pairs per function are beyond what TLC can judge):
+    //   quick:    (lattice + 256 random) x (lattice + 64 random)
+    //   thorough: lattice x every right operand; every left operand x a window of 64 consecutive right
+    //             operands whose start rotates through the whole range; every left operand x a core
+    //             set of right operands (0, +-1, +-2, +-3, min, min+1, max, max-1, +-255, +-256, +-257)
     std::vector<long long> const lat = as_ll(lattice<T>(true));
     if (cfg.tier == 0)
     {
@@ -577,11 +581,22 @@ template <bin F, typename T> void binary(config const &cfg, vj::Rng &rng)
     }
     else
     {
+      for (long long const a : lat)
+        for (long long b0 = lo<T>(); b0 <= hi<T>(); b0 += row_len)
+          binary_rows<F, T>(a, a, b0, b0 + row_len - 1);
+      std::set<long long> core_set{0, lo<T>(), lo<T>() + 1, hi<T>(), hi<T>() - 1};
+      for (long long const v : {1LL, 2LL, 3LL, 255LL, 256LL, 257LL})
+      {
+        if (v <= hi<T>()) core_set.insert(v);
+        if (-v >= lo<T>()) core_set.insert(-v);
+      }
+      std::vector<long long> const core(core_set.begin(), core_set.end());
+      long long const range = hi<T>() - lo<T>() + 1;
       for (long long a = lo<T>(); a <= hi<T>(); ++a)
       {
-        std::vector<long long> bs = lat;
-        for (int i = 0; i < 160; ++i) bs.push_back(static_cast<long long>(random_value<T>(rng)));
-        binary_rows_xs<F, T>(std::vector<long long>{a}, bs);
+        long long const start = lo<T>() + ((a - lo<T>()) * 67LL) % (range - 63);
+        binary_rows<F, T>(a, a, start, start + 63);
+        binary_rows_xs<F, T>(std::vector<long long>{a}, core);
       }
     }
   }
